@@ -1,5 +1,6 @@
 // Witness: utilities (removers, functors, adapters, AnyData, AnyId, OrderedQueueList).
 #include "common.h"
+#include <typeinfo>
 
 namespace wit {
 
@@ -50,6 +51,18 @@ struct ValueStorage {
 	bool operator == (const ValueStorage & o) const { return v == o.v; }
 	bool operator < (const ValueStorage & o) const { return v < o.v; }
 };
+
+// a storage that supports neither == nor < but can tell the type of what it holds (like std::any): ids over it are equal exactly when
+// their digests are
+struct TypeTagStorage {
+	const std::type_info * t;
+	TypeTagStorage() : t(&typeid(void)) {}
+	template <typename T> TypeTagStorage(const T &) : t(&typeid(T)) {}
+	const std::type_info & type() const { return *t; }
+};
+
+// a digester whose result is not a std::size_t: digests must be compared as what they are
+template <typename T> struct DigestDouble { double operator()(const T & v) const { return static_cast<double>(std::hash<T>()(v) % 1000) / 1000.0; } };
 
 // a digester taking its argument by value (a user may supply any callable class template): building an id from a temporary must
 // still store the value the caller supplied
@@ -176,6 +189,15 @@ void useUtils()
 		(void)(va == vb); (void)(va < vb); (void)std::hash<IdV>()(va);
 		eventpp::EventDispatcher<IdV, void (), PoliciesMapOrdered> d2; d2.appendListener(1, []() {}); d2.dispatch(IdV(1));
 		eventpp::EventDispatcher<IdV, void ()> d3; d3.appendListener(1, []() {}); d3.dispatch(IdV(1));
+		using IdT = eventpp::AnyId<std::hash, TypeTagStorage>;
+		IdT ta(3), tb(3L);
+		(void)(ta == tb); (void)(ta < tb); (void)std::hash<IdT>()(ta);
+		eventpp::EventDispatcher<IdT, void (), PoliciesMapOrdered> dt; dt.appendListener(3, []() {}); dt.dispatch(IdT(3L));
+		eventpp::EventDispatcher<IdT, void ()> dt2; dt2.appendListener(3, []() {}); dt2.dispatch(IdT(3L));
+		using IdD = eventpp::AnyId<DigestDouble, ValueStorage>;
+		IdD da(1), db(2);
+		(void)(da == db); (void)(da < db); (void)std::hash<IdD>()(da);
+		eventpp::EventDispatcher<IdD, void (), PoliciesMapOrdered> dd; dd.appendListener(1, []() {}); dd.dispatch(IdD(2));
 		using IdB = eventpp::AnyId<DigestByValue, ValueStorage>;
 		std::string ls("y"); const std::string cs("z");
 		IdB ba(std::string("x")), bb(ls), bc(cs), bd(7);
